@@ -34,6 +34,10 @@ func (o mop) String() string {
 		return "GetChangeCount"
 	case 'S':
 		return "SaveChanges"
+	case 'F':
+		return "SaveChanges(store that rejects the write)"
+	case 'Z':
+		return "SaveChanges(cancelled context)"
 	case 'H':
 		return "GetAllMissingNodes"
 	case 'X':
@@ -156,6 +160,17 @@ func (w *mworld) do(o mop) string {
 		return fmt.Sprint(w.t.GetChangeCount())
 	case 'S':
 		return fmt.Sprint(w.t.SaveChanges(context.Background(), w.save, false))
+	case 'F':
+		// the error path of a save: the target store rejects the batch
+		return fmt.Sprint(w.t.SaveChanges(context.Background(), rejectingDB{util.NewMemoryNodeDB()}, false))
+	case 'Z':
+		ctx, cancel := context.WithCancel(context.Background())
+		cancel()
+		err := w.t.SaveChanges(ctx, util.NewMemoryNodeDB(), false)
+		if err != nil && err != context.Canceled {
+			return fmt.Sprint(err)
+		}
+		return "<nil> or context canceled" // the save may win the race with the cancellation
 	case 'H':
 		ks, err := w.t.GetAllMissingNodes()
 		return fmt.Sprintf("%d/%v", len(ks), err)
@@ -193,6 +208,14 @@ func (w *mworld) final() string {
 	sort.Strings(es)
 	return fmt.Sprintf("root=%x content=%v iterr=%v missing=%d", w.t.GetRoot(), es, err, len(w.t.GetMissingNodeKeys()))
 }
+
+// rejectingDB is a save target whose batch write fails (a full or broken disk).
+type rejectingDB struct{ *util.MemoryNodeDB }
+
+var errRejected = fmt.Errorf("store rejects the write")
+
+func (rejectingDB) MultiPutNode(keys []util.Key, nodes []util.Node) error { return errRejected }
+func (rejectingDB) PutNode(key util.Key, node util.Node) error            { return errRejected }
 
 type opRef struct{ th, i int }
 
@@ -319,6 +342,8 @@ func C16Scenarios() []sched.Scenario {
 			{name: "W||GetChanges", doc: "writer || GetChanges (root, changes and deletes of one instant)", scripts: [][]mop{{{'I', "0a1d", "x"}, {'D', "0b22", ""}}, {{'X', "", ""}}}},
 			{name: "W||change-count", doc: "writer || GetChangeCount", scripts: [][]mop{{{'I', "0a1d", "x"}, {'I', "0a1e", "y"}}, {{'C', "", ""}, {'C', "", ""}}}},
 			{name: "W||Save||R", doc: "writer || SaveChanges || reader", scripts: [][]mop{{{'I', "0a1d", "x"}}, {{'S', "", ""}}, {{'G', "0a1d", ""}}}},
+			{name: "W||failing-save||W", doc: "writer || SaveChanges into a store that rejects the write || writer: the failing save must return its error and nobody may block for ever", scripts: [][]mop{{{'I', "0a1d", "x"}}, {{'F', "", ""}}, {{'D', "0b22", ""}}}},
+			// (a save with a cancelled context is not explored: its worker goroutine outlives the call, which the cooperative scheduler does not model)
 			{name: "W||W||R", doc: "two writers on keys sharing a prefix || reader", scripts: [][]mop{{{'I', "0a1b", "x"}}, {{'D', "0a1c", ""}}, {{'G', "0a1c", ""}}}},
 		}
 		for _, c := range cs {
